@@ -31,7 +31,8 @@ RULE = ("cases are conjunctions (1..4) of alternatives (1..3) of relations {name
         "grammars of the property (103 names [A-Za-z0-9][A-Za-z0-9.+-]*, 38 qualifiers/architectures "
         "[a-z0-9][a-z0-9-]*, the five operators, 452 versions with epoch/tilde/colon/hyphen/revision, "
         "negated and plain architectures in any mixture, 1..3 "
-        "restriction groups of 1..3 possibly negated profiles). Non-trivial = some single relation "
+        "restriction groups of 1..3 possibly negated profiles); mappings filled in 10 key orders; "
+        "structures reached by editing in place a list that was formatted just before (4 ways). Non-trivial = some single relation "
         "carries at least 3 of the 4 optional parts; distinct = distinct canonical JSON")
 ASSUMPTIONS = [
     "expected parse result is the generated structure itself (no model of the parser)",
@@ -152,6 +153,45 @@ def to_library(case):
     return out
 
 
+def recycled(case, mode):
+    """The structure under test, living in containers that held ANOTHER structure which was
+    formatted a moment ago: a caller edits a relation list in place (new version, another
+    alternative, one clause more or fewer) and formats the same list object again.
+      mode 1: same shape, other names/versions;  2: one alternative fewer in a group;
+      mode 3: one clause fewer;  4: same outer list, inner lists replaced."""
+    new = to_library(case)
+    prev = to_library(case)
+    for alts in prev:
+        for r in alts:
+            r["name"] = "zz-" + r["name"]
+            if r["version"] is not None:
+                r["version"] = ("<<", "0~prev")
+    if mode == 2:
+        for alts in prev:
+            if len(alts) > 1:
+                del alts[-1]
+                break
+    elif mode == 3 and len(prev) > 1:
+        del prev[-1]
+    PkgRelation.str(prev)
+    # the in-place edit: outer list and (modes 1-3) inner lists and mappings stay the same objects
+    for i, alts in enumerate(new):
+        if i < len(prev) and mode != 4:
+            for j, r in enumerate(alts):
+                if j < len(prev[i]):
+                    prev[i][j].clear()
+                    prev[i][j].update(r)
+                else:
+                    prev[i].append(r)
+            del prev[i][len(alts):]
+        elif i < len(prev):
+            prev[i] = alts
+        else:
+            prev.append(alts)
+    del prev[len(new):]
+    return prev
+
+
 def to_plain(case):
     """JSON -> the same structure written with plain tuples (what the parse must equal)."""
     out = []
@@ -234,6 +274,9 @@ def check(case):
         return (False, ("invalid-case-skipped",))
     rels = to_library(case)
     exp = to_plain(case)
+    mode = case.get("recycle")
+    if isinstance(mode, int) and 1 <= mode <= 4:
+        rels = recycled(case, mode)
 
     with warnings.catch_warnings(record=True) as caught:
         warnings.simplefilter("always")
@@ -293,6 +336,8 @@ def check(case):
     labels = set()
     if case.get("korder"):
         labels.add("mapping-filled-in-another-key-order")
+    if case.get("recycle"):
+        labels.add("list-edited-in-place-after-an-earlier-str:%s" % case["recycle"])
     best = 0
     allr = [r for alts in case["rels"] for r in alts]
     for r in allr:
@@ -374,6 +419,12 @@ def enum_cases():
         for k in range(1, 10):
             yield {"rels": [[fixed(m1, "p1")]], "korder": k}
             yield {"rels": [[fixed(m1, "p1"), fixed(masks[(k * 7) % 16], "p2")]], "korder": k}
+    # the same structures reached by editing, in place, a list that was formatted just before
+    for m1 in masks:
+        for mode in range(1, 5):
+            yield {"rels": [[fixed(m1, "p1")]], "recycle": mode}
+            yield {"rels": [[fixed(m1, "p1"), fixed(masks[(mode * 7) % 16], "p2")], [fixed(m1, "p3")]],
+                   "recycle": mode}
 
 
 # ------------------------------------------------------------------------------------------
@@ -436,9 +487,19 @@ def relation_s(draw):
                 draw(restr_s) if mask[3] else None)
 
 
-case_s = st.builds(lambda rels, k: {"rels": rels, "korder": k} if k else {"rels": rels},
+def _case(rels, k, rec):
+    c = {"rels": rels}
+    if k:
+        c["korder"] = k
+    if rec:
+        c["recycle"] = rec
+    return c
+
+
+case_s = st.builds(_case,
                    st.lists(st.lists(relation_s(), min_size=1, max_size=3), min_size=1, max_size=4),
-                   st.sampled_from([0, 0, 0, 1, 2, 3, 4, 5, 6, 7, 8, 9]))
+                   st.sampled_from([0, 0, 0, 1, 2, 3, 4, 5, 6, 7, 8, 9]),
+                   st.sampled_from([0, 0, 0, 1, 2, 3, 4]))
 
 
 def sources(tier):
